@@ -1,0 +1,346 @@
+//go:build verif
+
+package nathole
+
+import (
+	"slices"
+	"time"
+
+	"github.com/samber/lo"
+
+	"github.com/fatedier/frp/pkg/msg"
+	"github.com/fatedier/frp/pkg/transport"
+	"github.com/fatedier/frp/pkg/util/util"
+	"github.com/fatedier/frp/verif"
+)
+
+// The transporter only queues a message on the peer's control connection.
+//
+//verif:effectfree-iface ~/pkg/transport.MessageTransporter
+
+//verif:guarded Controller mu clientCfgs sessions
+//verif:guarded Analyzer mu records
+//verif:guarded MakeHoleRecords mu scores
+
+// Table lookups are pure: specifications evaluate them to a single term.
+//
+//verif:pure-fn ~/pkg/nathole.getBehaviorByMode
+
+//verif:table ~/pkg/nathole.DetectMode0 ~/pkg/nathole.DetectMode1 ~/pkg/nathole.DetectMode2 ~/pkg/nathole.DetectMode3 ~/pkg/nathole.DetectMode4 ~/pkg/nathole.DetectRoleSender ~/pkg/nathole.DetectRoleReceiver
+//verif:table ~/pkg/nathole.mode0Behaviors ~/pkg/nathole.mode1Behaviors ~/pkg/nathole.mode2Behaviors ~/pkg/nathole.mode3Behaviors ~/pkg/nathole.mode4Behaviors
+
+// ------------------------------------------------------------ candidate port ranges
+
+// "any candidate port range lies within 1..65535 with start not after end"
+//
+//verif:contract ~/pkg/nathole.getRangePorts
+//verif:props C20
+func verif_getRangePorts(addrs []string, difference, maxNumber int) {
+	verif.Requires(difference >= 0, "difference_nonneg")
+	r := getRangePorts(addrs, difference, maxNumber)
+	verif.Ensures(len(r) <= 1, "at_most_one_range")
+	if len(r) == 1 {
+		verif.Ensures(1 <= r[0].From, "from_at_least_1")
+		verif.Ensures(r[0].From <= r[0].To, "from_not_after_to")
+		verif.Ensures(r[0].To <= 65535, "to_at_most_65535")
+	}
+	if maxNumber <= 0 {
+		verif.Ensures(len(r) == 0, "no_range_without_budget")
+	}
+}
+
+// ------------------------------------------------------------ classification
+
+// "Malformed or out-of-range addresses yield an error"; the ports difference is
+// max - min >= 0; "regular" means a port-only change of 1..5; the NAT is easy
+// exactly when nothing changed.
+//
+//verif:contract ~/pkg/nathole.ClassifyNATFeature
+//verif:props C20
+func verif_ClassifyNATFeature(addresses []string, localIPs []string) {
+	f, err := ClassifyNATFeature(addresses, localIPs)
+	if len(addresses) <= 1 {
+		verif.Ensures(err != nil, "needs_two_addresses")
+	}
+	verif.Ensures((err == nil) == (f != nil), "feature_iff_no_error")
+	if err == nil {
+		verif.Ensures(f.PortsDifference >= 0, "difference_nonneg")
+		verif.Ensures(f.RegularPortsChange == (f.Behavior == BehaviorPortChanged && f.PortsDifference >= 1 && f.PortsDifference <= 5), "regular_iff_small_port_only_change")
+		verif.Ensures((f.NatType == EasyNAT) == (f.Behavior == BehaviorNoChange), "easy_iff_no_change")
+		verif.Ensures(f.NatType == EasyNAT || f.NatType == HardNAT, "type_is_easy_or_hard")
+		verif.Ensures(f.Behavior == BehaviorPortChanged || f.PortsDifference == 0, "difference_only_for_port_change")
+	}
+}
+
+//verif:loop ~/pkg/nathole.ClassifyNATFeature 1 inv=verifLoopClassify args=portMin,portMax
+func verifLoopClassify(portMin, portMax int) bool { return portMin <= portMax }
+
+// ------------------------------------------------------------ mode tables
+
+// In every entry of the five tables exactly one side sends and one receives;
+// in the tables of modes 1, 2 and 4 side A is the sender (the swap rule of
+// GetRecommandBehaviors relies on it).
+//
+//verif:lemma
+//verif:props C20
+func verif_tables_roles(mode int, index int) {
+	bs := getBehaviorByMode(mode)
+	verif.Assert(len(bs) > 0, "table_nonempty")
+	if index >= 0 && index < len(bs) {
+		a, b := bs[index].A, bs[index].B
+		verif.Assert((a.Role == DetectRoleSender && b.Role == DetectRoleReceiver) || (a.Role == DetectRoleReceiver && b.Role == DetectRoleSender), "complementary_roles")
+		if mode == DetectMode1 || mode == DetectMode2 || mode == DetectMode4 {
+			verif.Assert(a.Role == DetectRoleSender, "side_a_sends_in_modes_1_2_4")
+		}
+	}
+}
+
+// VerifValidEntry: (mode, index) addresses an existing table entry.
+//
+//verif:pure
+func VerifValidEntry(mode, index int) bool {
+	return mode >= 0 && mode <= 4 && index >= 0 && index < len(getBehaviorByMode(mode))
+}
+
+// ------------------------------------------------------------ authentication of hole requests
+
+// Monitor invariant of the controller: both tables exist and hold no nil entry.
+//
+//verif:invariant Controller mu
+func (c *Controller) verifInvTables(name string) bool {
+	cfg, ok := c.clientCfgs[name]
+	s, ok2 := c.sessions[name]
+	return c.clientCfgs != nil && c.sessions != nil && (!ok || cfg != nil) && (!ok2 || s != nil)
+}
+
+//verif:contract ~/pkg/nathole.NewController
+//verif:props C20 C08
+func verif_NewController(d time.Duration, name string) {
+	c, err := NewController(d)
+	verif.Ensures(err == nil && c != nil && c.verifInvTables(name), "establishes_invariant")
+}
+
+// ListenClient: one owner per proxy name; the entry records key and allow-list.
+//
+//verif:contract (*~/pkg/nathole.Controller).ListenClient
+//verif:props C08 C10 C20
+func verif_ListenClient(c *Controller, name string, sk string, allowUsers []string, q string) {
+	tab0 := verif.Snap(c.clientCfgs)
+	ch, err := c.ListenClient(name, sk, allowUsers)
+	if verif.Has(tab0, name) {
+		verif.Ensures(err != nil && ch == nil, "duplicate_refused")
+		verif.Ensures(c.clientCfgs[name] == tab0[name], "incumbent_untouched")
+	} else {
+		verif.Ensures(err == nil && ch != nil, "fresh_name_accepted")
+		verif.Ensures(verif.Has(c.clientCfgs, name) && c.clientCfgs[name].sk == sk && c.clientCfgs[name].sidCh == ch, "entry_records_key_and_channel")
+		verif.Ensures(slices.Equal(c.clientCfgs[name].allowUsers, allowUsers), "entry_records_allow_list")
+	}
+	if q != name {
+		verif.Ensures(verif.Has(c.clientCfgs, q) == verif.Has(tab0, q) && c.clientCfgs[q] == tab0[q], "other_names_untouched")
+	}
+}
+
+//verif:contract (*~/pkg/nathole.Controller).CloseClient
+//verif:props C10 C20
+func verif_CloseClient(c *Controller, name string, q string) {
+	tab0 := verif.Snap(c.clientCfgs)
+	c.CloseClient(name)
+	verif.Ensures(!verif.Has(c.clientCfgs, name), "name_released")
+	if q != name {
+		verif.Ensures(verif.Has(c.clientCfgs, q) == verif.Has(tab0, q) && c.clientCfgs[q] == tab0[q], "other_names_untouched")
+	}
+}
+
+
+// A NAT-hole session is created, and the proxy owner notified, only for a
+// request signed with the proxy's secret key whose visitor user is allowed;
+// whatever was inserted into the session table is removed again.
+//
+//verif:contract (*~/pkg/nathole.Controller).HandleVisitor
+//verif:props C08 C20
+func verif_HandleVisitor(c *Controller, m *msg.NatHoleVisitor, transporter transport.MessageTransporter, visitorUser string) {
+	cfg0, ok0 := c.clientCfgs[m.ProxyName]
+	precheck := m.PreCheck
+	verif.ResetEvents()
+	c.HandleVisitor(m, transporter, visitorUser)
+	const setSess = "mapset:H.pkg.nathole.Controller.sessions"
+	const delSess = "mapdel:H.pkg.nathole.Controller.sessions"
+	if ok0 {
+		signed := m.SignKey == util.GetAuthKey(cfg0.sk, m.Timestamp)
+		allowed := slices.Contains(cfg0.allowUsers, visitorUser) || slices.Contains(cfg0.allowUsers, "*")
+		if verif.SentOn(cfg0.sidCh) {
+			verif.Ensures(signed, "owner_notified_only_for_signed_request")
+			verif.Ensures(allowed, "owner_notified_only_for_allowed_user")
+			verif.Ensures(!precheck, "precheck_never_notifies_owner")
+		}
+		if verif.Called(setSess) {
+			verif.Ensures(signed, "session_only_for_signed_request")
+			verif.Ensures(allowed, "session_only_for_allowed_user")
+		}
+	} else {
+		verif.Ensures(!verif.Called(setSess), "no_session_for_unknown_proxy")
+	}
+	if verif.Called(setSess) {
+		verif.Ensures(verif.CallCount(setSess) == 1, "one_session_per_request")
+		verif.Ensures(verif.CalledWith(delSess, 1, verif.NthArg[string](setSess, 0, 1)), "session_removed_on_every_path")
+	}
+}
+
+// The handler holds a session entry while it talks to the owner: every send it
+// performs must be able to give up (select with timeout / done case).
+//
+//verif:noblock (*~/pkg/nathole.Controller).HandleVisitor props=C20,C16
+
+// ------------------------------------------------------------ score records
+
+// Monitor invariant of the analyzer: the table exists and holds no nil records.
+//
+//verif:invariant Analyzer mu
+func (a *Analyzer) verifInvRecords(key string) bool {
+	r, ok := a.records[key]
+	return a.records != nil && (!ok || r != nil)
+}
+
+//verif:contract ~/pkg/nathole.NewAnalyzer
+//verif:props C20
+func verif_NewAnalyzer(d time.Duration, key string) {
+	a := NewAnalyzer(d)
+	verif.Ensures(a != nil && a.verifInvRecords(key), "establishes_invariant")
+}
+
+// Monitor invariant of a records object: every score addresses an existing
+// entry of a mode table ("whatever success reports were received before").
+//
+//verif:invariant MakeHoleRecords mu
+func (mhr *MakeHoleRecords) verifInvScores(k int) bool {
+	if k < 0 || k >= len(mhr.scores) {
+		return true
+	}
+	s := mhr.scores[k]
+	return s != nil && VerifValidEntry(s.Mode, s.Index)
+}
+
+// slices.MaxFunc returns one of the elements (library contract, trusted).
+//
+//verif:contract slices.MaxFunc[[]*~/pkg/nathole.BehaviorScore *~/pkg/nathole.BehaviorScore]
+//verif:trusted
+func verif_slices_MaxFunc(s []*BehaviorScore, cmp func(a, b *BehaviorScore) int) {
+	r := slices.MaxFunc(s, cmp)
+	i := verif.Any[int]()
+	verif.Ensures(0 <= i && i < len(s) && r == s[i], "returns_an_element")
+}
+
+//verif:contract (*~/pkg/nathole.MakeHoleRecords).Recommand
+//verif:props C20
+func verif_Recommand(mhr *MakeHoleRecords) {
+	mode, index := mhr.Recommand()
+	verif.Ensures(VerifValidEntry(mode, index), "recommends_existing_entry")
+}
+
+//verif:contract (*~/pkg/nathole.MakeHoleRecords).ReportSuccess
+//verif:props C20
+func verif_ReportSuccess(mhr *MakeHoleRecords, mode int, index int) {
+	mhr.ReportSuccess(mode, index)
+}
+
+// Roles are complementary and follow the mode's rule for every recommendation
+// the records can make.
+//
+//verif:contract (*~/pkg/nathole.Analyzer).GetRecommandBehaviors
+//verif:props C20
+func verif_GetRecommandBehaviors(a *Analyzer, key string, c, v *NatFeature) {
+	mode, index, cB, vB := a.GetRecommandBehaviors(key, c, v)
+	verif.Ensures(VerifValidEntry(mode, index), "recommends_existing_entry")
+	verif.Ensures((cB.Role == DetectRoleSender && vB.Role == DetectRoleReceiver) || (cB.Role == DetectRoleReceiver && vB.Role == DetectRoleSender), "exactly_one_sender_one_receiver")
+	cHard, vHard := c.NatType == HardNAT, v.NatType == HardNAT
+	cEasy, vEasy := c.NatType == EasyNAT, v.NatType == EasyNAT
+	if mode == DetectMode1 {
+		verif.Ensures(!(cHard && vEasy) || cB.Role == DetectRoleSender, "mode1_hard_client_sends")
+		verif.Ensures(!(cEasy && vHard) || vB.Role == DetectRoleSender, "mode1_hard_visitor_sends")
+	}
+	if mode == DetectMode2 {
+		verif.Ensures(!(cHard && vEasy) || cB.Role == DetectRoleReceiver, "mode2_hard_client_listens")
+		verif.Ensures(!(cEasy && vHard) || vB.Role == DetectRoleReceiver, "mode2_hard_visitor_listens")
+	}
+	if mode == DetectMode4 {
+		verif.Ensures(!(c.RegularPortsChange && !v.RegularPortsChange) || cB.Role == DetectRoleSender, "mode4_regular_client_sends")
+		verif.Ensures(!(!c.RegularPortsChange && v.RegularPortsChange) || vB.Role == DetectRoleSender, "mode4_regular_visitor_sends")
+	}
+}
+
+// analysis: both parties get the same session id, mode and protocol, each the
+// other party's (compacted) addresses, the role recommended for it, and
+// candidate ranges computed from the other party's addresses.
+//
+//verif:contract (*~/pkg/nathole.Controller).analysis
+//verif:props C20
+func verif_analysis(c *Controller, session *Session) {
+	cm, vm := session.clientMsg, session.visitorMsg
+	cAddrs, vAddrs := cm.MappedAddrs, vm.MappedAddrs
+	cAssist, vAssist := cm.AssistedAddrs, vm.AssistedAddrs
+	sid, proto := session.sid, vm.Protocol
+	cTx, vTx := cm.TransactionID, vm.TransactionID
+	verif.ResetEvents()
+	vResp, cResp, err := c.analysis(session)
+	if err == nil {
+		verif.Ensures(vResp != nil && cResp != nil, "both_get_a_response")
+		verif.Ensures(vResp.Sid == sid && cResp.Sid == sid, "same_session_id")
+		verif.Ensures(vResp.DetectBehavior.Mode == cResp.DetectBehavior.Mode, "same_mode")
+		verif.Ensures(vResp.Protocol == proto && cResp.Protocol == proto, "same_protocol")
+		verif.Ensures(vResp.TransactionID == vTx && cResp.TransactionID == cTx, "own_transaction_id")
+		verif.Ensures(slices.Equal(vResp.CandidateAddrs, slices.Compact(cAddrs)) && slices.Equal(vResp.AssistedAddrs, slices.Compact(cAssist)), "visitor_gets_client_addresses")
+		verif.Ensures(slices.Equal(cResp.CandidateAddrs, slices.Compact(vAddrs)) && slices.Equal(cResp.AssistedAddrs, slices.Compact(vAssist)), "client_gets_visitor_addresses")
+		cRole, vRole := cResp.DetectBehavior.Role, vResp.DetectBehavior.Role
+		verif.Ensures((cRole == DetectRoleSender && vRole == DetectRoleReceiver) || (cRole == DetectRoleReceiver && vRole == DetectRoleSender), "exactly_one_sender_one_receiver")
+		verif.Ensures(verif.CallCount("nathole.getRangePorts") == 2, "ranges_from_getRangePorts")
+	} else {
+		verif.Ensures(vResp == nil && cResp == nil, "error_gives_no_instruction")
+	}
+}
+
+// Score lists are built from the mode tables: every score addresses an entry
+// of the table of its mode.
+//
+//verif:contract ~/pkg/nathole.getBehaviorScoresByMode2
+//verif:props C20
+func verif_getBehaviorScoresByMode2(mode int, senderScore, receiverScore int, k int) {
+	verif.Requires(mode >= 0 && mode <= 4, "known_mode")
+	r := getBehaviorScoresByMode2(mode, senderScore, receiverScore)
+	if k >= 0 && k < len(r) {
+		verif.Ensures(r[k] != nil, "scores_nonnil")
+		verif.Ensures(r[k].Mode == mode, "scores_of_this_mode")
+		verif.Ensures(r[k].Index >= 0 && r[k].Index < len(getBehaviorByMode(mode)), "scores_address_table_entries")
+	}
+}
+
+//verif:loop ~/pkg/nathole.getBehaviorScoresByMode2 1 inv=verifLoopScores args=scores,mode,behaviors,i
+func verifLoopScores(scores []*BehaviorScore, mode int, behaviors []lo.Tuple2[RecommandBehavior, RecommandBehavior], i int, k int) bool {
+	if i < 0 || i > len(behaviors) {
+		return false
+	}
+	if k < 0 || k >= len(scores) {
+		return true
+	}
+	return scores[k] != nil && scores[k].Mode == mode && scores[k].Index >= 0 && scores[k].Index < len(behaviors)
+}
+
+//verif:contract ~/pkg/nathole.getBehaviorScoresByMode
+//verif:props C20
+func verif_getBehaviorScoresByMode(mode int, defaultScore int, k int) {
+	verif.Requires(mode >= 0 && mode <= 4, "known_mode")
+	r := getBehaviorScoresByMode(mode, defaultScore)
+	if k >= 0 && k < len(r) {
+		verif.Ensures(r[k] != nil && VerifValidEntry(r[k].Mode, r[k].Index), "scores_address_table_entries")
+	}
+}
+
+// A fresh records object satisfies the invariant.
+//
+//verif:contract ~/pkg/nathole.NewMakeHoleRecords
+//verif:props C20
+//verif:thorough
+func verif_NewMakeHoleRecords(c, v *NatFeature, k int) {
+	r := NewMakeHoleRecords(c, v)
+	verif.Ensures(r != nil, "nonnil")
+	verif.Ensures(r.verifInvScores(k), "establishes_invariant")
+}
